@@ -580,6 +580,63 @@ fn swap_timer() {
 }
 
 
+// ------------------------------------------------ payload access is exclusive (C16, semantic side)
+// The broadcast channels are `Sync` for payloads that are only `Send`: that is sound only because
+// every access the channel itself makes to the stored value (`T::clone(&stored)`) happens inside
+// the channel's critical section. `Probe` is such a payload - `clone(&self)` mutates a non-atomic
+// cell inside `self`, which is legal for a `!Sync` type - and the cell is a `loom::cell`, so two
+// threads inside `clone()` of the same stored value, or a clone that is not ordered after the
+// send, are a loom causality violation.
+struct Probe(loom::cell::UnsafeCell<u32>);
+unsafe impl Send for Probe {}
+impl Probe {
+    fn new() -> Probe {
+        Probe(loom::cell::UnsafeCell::new(0))
+    }
+}
+impl Clone for Probe {
+    fn clone(&self) -> Probe {
+        self.0.with_mut(|p| unsafe { *p += 1 });
+        Probe::new()
+    }
+}
+
+fn bcast_clone_exclusive() {
+    let c = Arc::new(GenericOneshotBroadcastChannel::<LoomRaw, Probe>::new());
+    let _ = poll_once_and_drop(c.receive());
+    let hs: Vec<_> = (0..2)
+        .map(|_| {
+            let c = c.clone();
+            loom::thread::spawn(move || {
+                let got = loom::future::block_on(async { c.receive().await });
+                assert!(got.is_some(), "C12: every receiver gets a clone of the value");
+            })
+        })
+        .collect();
+    assert!(c.send(Probe::new()).is_ok(), "C12: first send on an open channel must succeed");
+    for h in hs {
+        h.join().unwrap();
+    }
+}
+
+fn state_clone_exclusive() {
+    let c = Arc::new(GenericStateBroadcastChannel::<LoomRaw, Probe>::new());
+    let _ = c.try_receive(StateId::new()).is_some();
+    let hs: Vec<_> = (0..2)
+        .map(|_| {
+            let c = c.clone();
+            loom::thread::spawn(move || {
+                let got = loom::future::block_on(async { c.receive(StateId::new()).await });
+                assert!(got.is_some(), "C13: a receiver waiting for something newer gets the published state");
+            })
+        })
+        .collect();
+    assert!(c.send(Probe::new()).is_ok(), "C13: send on an open channel must succeed");
+    for h in hs {
+        h.join().unwrap();
+    }
+}
+
 // ------------------------------------------------ sequential epilogues
 // After all threads of a scenario have been joined, the primitive is put through one plain
 // single-threaded cycle whose outcome the property fixes completely. A lock-free mirror, cached
@@ -1860,6 +1917,8 @@ const SCENARIOS: &[(&str, &str, Scenario)] = &[
     ("event_set_vs_abandon_tail", "C01,C14", event_set_vs_abandon_tail),
     ("mpmc_close_vs_abandon", "C01,C11", mpmc_close_vs_abandon),
     ("mpmc_close_vs_abandon_rev", "C01,C11", mpmc_close_vs_abandon_rev),
+    ("bcast_clone_exclusive", "C12,C16", bcast_clone_exclusive),
+    ("state_clone_exclusive", "C13,C16", state_clone_exclusive),
     ("mpmc_double_close", "hook:C11", mpmc_double_close),
     ("mpmc_orphan_recv", "hook:C10,C11", mpmc_orphan_recv),
     ("mpmc_orphan_send", "hook:C08,C10,C11", mpmc_orphan_send),
